@@ -7,9 +7,12 @@ import (
 	"fmt"
 	"io"
 	"math/rand"
+	"os"
 	"os/exec"
+	"path/filepath"
 	"sort"
 	"strings"
+	"syscall"
 	"time"
 )
 
@@ -30,8 +33,15 @@ import (
 //	    chunk sizes including > 512 bytes) are run on the real code, the exact
 //	    interleaving of Read calls, Decoded hooks and output is written as NDJSON
 //	    and validated by TLC against Trace_Stream (POSTCONDITION acceptance).
-//	(C) a sample is repeated on the compiled binary over a pipe, blocking
-//	    between values and waiting for the output before the next value is sent.
+//	(C) a sample is repeated on the compiled binary, blocking between values and
+//	    waiting for the output before the next value is sent: over a pipe on
+//	    stdin and through a named FIFO given as a file argument; and with two
+//	    inputs, a good file followed by an unreadable one (a directory).
+//	(D) streams with one large value (70-200 KiB string / array / object) at the
+//	    first / middle / last position among small values, under several
+//	    chunkings and faults; the expectation is the Go port of JqStream's
+//	    Expected / MustCount / MayCount (cross-checked against TLC's tables on
+//	    every vector of (A)) over encoding/json's value spans.
 
 const c03File = "in.json"
 const c03Dev = "more-swallows-error"
@@ -44,6 +54,7 @@ func init() {
 	register("C03", checkC03)
 	jobKinds["c03vec"] = c03ExecVec
 	jobKinds["c03trace"] = c03ExecTrace
+	jobKinds["c03big"] = c03ExecBig
 }
 
 type c03Fault struct {
@@ -270,6 +281,76 @@ func c03BuildModel(m *c03Model, data []byte, spans [][2]int) string {
 	return ""
 }
 
+// c03GoModel is the Go port of JqStream's MustCount / MayCount / Expected /
+// SwallowCounts over the value spans of the readable prefix (c03Oracle).  It
+// serves the streams that are too long for TLC's byte-level model; on every
+// vector of MC_Stream it is compared with TLC's tables (c03ExecVec).
+func c03GoModel(data []byte, f c03Fault, spans [][2]int, errAt int, open bool) *c03Model {
+	lim := len(data)
+	if f.Kind != "none" {
+		lim = f.At
+	}
+	m := &c03Model{lim: lim, nvals: len(spans), swallow: map[int]bool{}}
+	m.must = make([]int, lim+1)
+	m.may = make([]int, lim+1)
+	sd := func(k int) bool { b := data[spans[k][0]-1]; return !(b == '-' || (b >= '0' && b <= '9')) }
+	for k, sp := range spans {
+		// must: e+1 <= d ; may: e <= d and (sd or e < d)
+		for d := sp[1] + 1; d <= lim; d++ {
+			m.must[d]++
+			m.may[d]++
+		}
+		if sd(k) && sp[1] <= lim {
+			m.may[sp[1]]++
+		}
+	}
+	allWS := func(a, b int) bool { // 1-based inclusive
+		for i := a; i <= b; i++ {
+			if !c03IsSpace(data[i-1]) {
+				return false
+			}
+		}
+		return true
+	}
+	endOf := func(k int) int {
+		if k == 0 {
+			return 0
+		}
+		return spans[k-1][1]
+	}
+	n := len(spans)
+	if f.Kind == "ioerr" {
+		m.outcome, m.lo, m.hi = "json", m.must[lim], m.may[lim]
+	} else {
+		m.outcome, m.lo, m.hi = "ok", n, n
+		if errAt != 0 || open {
+			m.outcome = "json"
+		}
+	}
+	if errAt > 0 && (data[errAt-1] == ']' || data[errAt-1] == '}') && allWS(endOf(n)+1, errAt-1) {
+		m.swallow[n] = true
+	} else if f.Kind == "ioerr" && errAt == 0 {
+		for k := m.lo; k <= m.hi; k++ {
+			if allWS(endOf(k)+1, lim) {
+				m.swallow[k] = true
+			}
+		}
+	}
+	return m
+}
+
+func c03SameInts(a, b []int) bool {
+	if len(a) != len(b) {
+		return false
+	}
+	for i := range a {
+		if a[i] != b[i] {
+			return false
+		}
+	}
+	return true
+}
+
 func c03ExecVec(j *Job) (res Result) {
 	res.Class = "ok"
 	var probs []c03Problem
@@ -308,6 +389,18 @@ func c03ExecVec(j *Job) (res Result) {
 		swallow: map[int]bool{}}
 	for _, k := range v.Swallow {
 		m.swallow[k] = true
+	}
+	// the Go port of the expectation (used for the large-value family) against TLC's tables
+	g := c03GoModel(data, v.Fault, spans, oerr, oopen)
+	sameSw := len(g.swallow) == len(m.swallow)
+	for k := range g.swallow {
+		sameSw = sameSw && m.swallow[k]
+	}
+	if !c03SameInts(g.must, m.must) || !c03SameInts(g.may, m.may) || g.outcome != m.outcome || g.lo != m.lo || g.hi != m.hi || !sameSw {
+		add("model", "go-port-vs-tlc", map[string]any{"stream": string(data), "fault": v.Fault,
+			"tlc": map[string]any{"must": m.must, "may": m.may, "exp": v.Exp, "swallow": v.Swallow},
+			"go":  map[string]any{"must": g.must, "may": g.may, "outcome": g.outcome, "lo": g.lo, "hi": g.hi, "swallow": g.swallow}})
+		return
 	}
 	if bad := c03BuildModel(m, data, spans); bad != "" {
 		if strings.Contains(bad, "cannot unmarshal number") {
@@ -376,6 +469,237 @@ func c03ExecTrace(j *Job) (res Result) {
 	b, _ := json.Marshal(map[string]any{"cum": m.cum, "outs": m.outs})
 	res.Out = []string{string(b)}
 	return res
+}
+
+type c03BigRun struct {
+	Chunks []int    `json:"chunks"`
+	Fault  c03Fault `json:"fault"`
+	Label  string   `json:"label"`
+}
+
+type c03BigIn struct {
+	Data []byte      `json:"data"`
+	Runs []c03BigRun `json:"runs"`
+	Desc string      `json:"desc"`
+}
+
+func c03Clip(b []byte, n int) string {
+	if len(b) <= 2*n {
+		return string(b)
+	}
+	return fmt.Sprintf("%s ...(%d bytes)... %s", b[:n], len(b)-2*n, b[len(b)-n:])
+}
+
+// c03ExecBig: one stream with a large value, every (chunking, fault) of the job
+// judged in the worker against the Go port of the expectation.
+func c03ExecBig(j *Job) (res Result) {
+	res.Class = "ok"
+	var probs []c03Problem
+	add := func(kind, name string, d map[string]any) {
+		if len(probs) < 3 {
+			probs = append(probs, c03Problem{kind, name, d})
+		}
+	}
+	defer func() {
+		for _, p := range probs {
+			b, _ := json.Marshal(p)
+			res.Out = append(res.Out, string(b))
+		}
+	}()
+	var in c03BigIn
+	if err := json.Unmarshal([]byte(j.Tag), &in); err != nil {
+		add("model", "bad-big-job", map[string]any{"err": err.Error()})
+		return
+	}
+	type key struct {
+		kind string
+		at   int
+	}
+	models := map[key]*c03Model{}
+	first := map[key]*[3]any{} // class, k, label of the first chunking per fault
+	for _, run := range in.Runs {
+		kf := key{run.Fault.Kind, run.Fault.At}
+		m := models[kf]
+		if m == nil {
+			lim := len(in.Data)
+			if run.Fault.Kind != "none" {
+				lim = run.Fault.At
+			}
+			spans, oerr, oopen := c03Oracle(in.Data[:lim])
+			m = c03GoModel(in.Data, run.Fault, spans, oerr, oopen)
+			if bad := c03BuildModel(m, in.Data, spans); bad != "" {
+				if len(bad) > 300 {
+					bad = bad[:300]
+				}
+				add("violation", "single-value", map[string]any{"stream": in.Desc, "why": bad})
+				return
+			}
+			models[kf] = m
+		}
+		r := c03Run(in.Data, run.Chunks, run.Fault, false)
+		res.Depth++
+		k, verdict, name, why := c03Judge(m, &r)
+		nread := 0
+		for _, e := range r.Events {
+			if e.E == "ReadCall" {
+				nread++
+			}
+		}
+		chunks := run.Chunks
+		if len(chunks) > 40 {
+			chunks = chunks[:40]
+		}
+		rep := map[string]any{"stream": in.Desc, "stream_len": len(in.Data), "stream_head_tail": c03Clip(in.Data, 200), "fault": run.Fault,
+			"chunking": run.Label, "chunks_first40": chunks, "why": why, "program": string(c03Prog), "got_class": r.Class, "got_msg": r.ErrMsg,
+			"got_file": r.FileName, "got_stdout_len": len(r.Stdout), "got_stdout_tail": c03Clip(r.Stdout, 150), "processed": k,
+			"expected": map[string]any{"outcome": m.outcome, "lo": m.lo, "hi": m.hi, "values": m.nvals}, "read_calls": nread}
+		switch verdict {
+		case "violation":
+			add("violation", "big-"+name, rep)
+			continue
+		case "inconclusive":
+			add("inconclusive", name, nil)
+			continue
+		case "dev":
+			add("dev", name, map[string]any{"stream": in.Desc, "fault": fmt.Sprintf("%s@%d", run.Fault.Kind, run.Fault.At), "processed": k, "got_class": r.Class})
+		}
+		if f := first[kf]; f == nil {
+			first[kf] = &[3]any{r.Class, k, run.Label}
+		} else if f[0] != r.Class || f[1] != k {
+			rep["why"] = fmt.Sprintf("result depends on the chunking: %v -> %v after %v values, %s -> %s after %d values", f[2], f[0], f[1], run.Label, r.Class, k)
+			add("violation", "big-chunk-dependent", rep)
+		}
+	}
+	return
+}
+
+// c03BigValue: a value text of roughly size bytes: 0 string, 1 array of small values, 2 object holding an array of strings
+func c03BigValue(rng *rand.Rand, shape, size int) string {
+	var sb strings.Builder
+	switch shape {
+	case 0:
+		sb.WriteByte('"')
+		for sb.Len() < size {
+			switch rng.Intn(40) {
+			case 0:
+				sb.WriteString(`\"`)
+			case 1:
+				sb.WriteString(`\\`)
+			case 2:
+				sb.WriteString("] [")
+			case 3:
+				sb.WriteString("\u00e9")
+			default:
+				sb.WriteByte(byte('a' + rng.Intn(26)))
+			}
+		}
+		sb.WriteByte('"')
+	case 1:
+		sb.WriteByte('[')
+		for i := 0; sb.Len() < size; i++ {
+			if i > 0 {
+				sb.WriteString([]string{",", ", ", ",\n"}[rng.Intn(3)])
+			}
+			sb.WriteString(c03RandValue(rng, 2))
+		}
+		sb.WriteByte(']')
+	default:
+		sb.WriteString(`{"big": [`)
+		for i := 0; sb.Len() < size; i++ {
+			if i > 0 {
+				sb.WriteByte(',')
+			}
+			sb.WriteByte('"')
+			for n := 20 + rng.Intn(200); n > 0; n-- {
+				sb.WriteByte(byte('a' + rng.Intn(26)))
+			}
+			sb.WriteByte('"')
+		}
+		sb.WriteString(`]}`)
+	}
+	return sb.String()
+}
+
+// c03BigJob: nSmall small values with one large value at position pos, and the
+// (chunking, fault) combinations to run.
+func c03BigJob(rng *rand.Rand, pos, nSmall, shape int) c03BigIn {
+	size := 70*1024 + rng.Intn(130*1024)
+	var sb strings.Builder
+	bigStart, bigEnd, nextStart, nextEnd := 0, 0, 0, 0 // 1-based spans of the large value and of the value after it
+	prevNum := false
+	total := nSmall + 1
+	for i := 0; i < total; i++ {
+		var v string
+		if i == pos {
+			v = c03BigValue(rng, shape, size)
+		} else {
+			v = c03RandValue(rng, 1)
+		}
+		if i > 0 {
+			sb.WriteString(c03RandWS(rng, !(prevNum && c03IsNumText(v))))
+		}
+		start := sb.Len() + 1
+		sb.WriteString(v)
+		if i == pos {
+			bigStart, bigEnd = start, sb.Len()
+		}
+		if i == pos+1 {
+			nextStart, nextEnd = start, sb.Len()
+		}
+		prevNum = c03IsNumText(v)
+	}
+	if rng.Intn(2) == 0 {
+		sb.WriteString(c03RandWS(rng, false))
+	}
+	data := []byte(sb.String())
+	n := len(data)
+	in := c03BigIn{Data: data, Desc: fmt.Sprintf("%d small values, one %d-byte value of shape %d at position %d (bytes %d..%d), %d bytes in all", nSmall, bigEnd-bigStart+1, shape, pos+1, bigStart, bigEnd, n)}
+	randChunks := func(lo, hi int) []int {
+		var out []int
+		for sum := 0; sum < n; {
+			c := lo + rng.Intn(hi-lo+1)
+			out = append(out, c)
+			sum += c
+		}
+		return out
+	}
+	type ch struct {
+		label  string
+		chunks []int
+	}
+	chunkings := []ch{
+		{"whole (as much as the decoder asks for)", nil},
+		{"random chunks of 1..64 KiB", randChunks(1, 64*1024)},
+		{"random chunks of 1..64 KiB (second draw)", randChunks(1, 64*1024)},
+		{"random chunks of 300..5000 bytes", randChunks(300, 5000)},
+		{"one read ends exactly at the end of the large value", []int{bigEnd}},
+		{"one read ends one byte after the large value", []int{bigEnd + 1}},
+		{"the tail of the large value arrives together with everything after it", []int{bigEnd - 1 - rng.Intn(2000)}},
+	}
+	if nextStart > 0 {
+		cut := nextStart + rng.Intn(nextEnd-nextStart+1)
+		chunkings = append(chunkings, ch{"one read ends inside the value after the large one", []int{cut}},
+			ch{"reads end at the end of the large value and inside the following value", []int{bigEnd, cut - bigEnd}})
+	}
+	faults := []c03Fault{{Kind: "none"}}
+	after := bigEnd + 1 + rng.Intn(n-bigEnd+1) // somewhere after the large value
+	if after > n {
+		after = n
+	}
+	faults = append(faults,
+		c03Fault{Kind: "ioerr", At: after}, c03Fault{Kind: "eof", At: after},
+		c03Fault{Kind: "ioerr", At: n}, c03Fault{Kind: "ioerr", At: bigEnd}, c03Fault{Kind: "eof", At: bigEnd},
+		c03Fault{Kind: "eof", At: bigStart + rng.Intn(bigEnd-bigStart)}, c03Fault{Kind: "ioerr", At: bigStart + rng.Intn(bigEnd-bigStart)})
+	if nextStart > 0 && nextEnd > nextStart {
+		in2 := nextStart + rng.Intn(nextEnd-nextStart)
+		faults = append(faults, c03Fault{Kind: "eof", At: in2}, c03Fault{Kind: "ioerr", At: in2})
+	}
+	for _, f := range faults {
+		for _, c := range chunkings {
+			in.Runs = append(in.Runs, c03BigRun{Chunks: c.chunks, Fault: f, Label: c.label})
+		}
+	}
+	return in
 }
 
 // ---------------------------------------------------------------------------
@@ -638,6 +962,8 @@ func checkC03(c *Ctx) {
 	c.Assume("how promptly a malformed byte already read is reported is open (reading on before reporting it is allowed)")
 	c.Assume("what a value text denotes is encoding/json's business: the model's scanner only decides where values end and whether the stream is well formed, and is itself cross-checked against encoding/json on every vector")
 	c.Assume("the output of a value is taken from the real code processing that value alone (the statement's equivalence); rendering is owned by C17; objects in random streams have at most one key")
+	c.Assume("an input that cannot even be opened (missing file) is refused by the command line before anything runs; only inputs that open and then fail to read (a directory) are compared in the two-inputs case")
+	c.Assume("streams with a value of 70-200 KiB are outside TLC's byte-level model: their expectation is the Go port of Expected/MustCount/MayCount, which is compared with TLC's tables on every vector")
 	c.Assume("byte alphabet of the exhaustive model: the bytes of 9 value texts, three separators and 7 substitution bytes; other bytes only through the random streams of binding B")
 	pool := c.Pool()
 	open := c.OpenDev(c03Dev)
@@ -861,12 +1187,50 @@ func checkC03(c *Ctx) {
 	c03SelfTest(c, traces[0], traces[1])
 
 	c.Set("wall_ABself_s", time.Since(t0).Seconds())
-	// ---- (C) the compiled binary over a pipe, blocking between values
-	nPipe := 4
+	// ---- (D) one large value among small ones
+	nBig := 5
 	if c.Thorough() {
-		nPipe = 40
+		nBig = 30
+	}
+	var bigJobs []Job
+	var bigIns []c03BigIn
+	for i := 0; i < nBig; i++ {
+		nSmall := 2 + rng.Intn(5)
+		pos := []int{0, nSmall / 2, nSmall}[i%3] // first, middle, last
+		if i >= 3 && i%3 == 1 {
+			pos = 1 + rng.Intn(nSmall-1)
+		}
+		in := c03BigJob(rng, pos, nSmall, (i/3+i)%3)
+		b, _ := json.Marshal(in)
+		bigIns = append(bigIns, in)
+		bigJobs = append(bigJobs, Job{Kind: "c03big", Tag: string(b)})
+	}
+	pool.Map(bigJobs, func(i int, r Result) {
+		switch r.Class {
+		case "ok":
+		case "timeout":
+			c.Count("inconclusive", 1)
+			return
+		default:
+			c.Violation("big-crash", map[string]any{"stream": bigIns[i].Desc, "class": r.Class, "detail": r.Detail})
+			return
+		}
+		handle(r.Out)
+		c.Count("big_value_runs", int64(r.Depth))
+		c.Case("big:"+bigIns[i].Desc, true)
+		if i == 0 {
+			c.Sample(map[string]any{"family": "large value", "stream": bigIns[i].Desc, "runs": len(bigIns[i].Runs)})
+		}
+	})
+	c.Set("wall_ABselfD_s", time.Since(t0).Seconds())
+
+	// ---- (C) the compiled binary, blocking between values: stdin pipe, named FIFO as a file argument; two inputs
+	nPipe, nTwo := 4, 2
+	if c.Thorough() {
+		nPipe, nTwo = 40, 12
 	}
 	c03Pipe(c, rng, nPipe)
+	c03TwoInputs(c, rng, nTwo)
 
 	if devCases > 0 {
 		c.Known(c03Dev, fmt.Sprintf("`for d.More()` in EvalProgram ends the run with status ok on a stray ']' or '}' between values and on a reader error that falls between two values (%d cases; witness: %s)", devCases, devWitness))
@@ -875,10 +1239,10 @@ func checkC03(c *Ctx) {
 	c.Set("rule", "TLC enumerates every stream of <= 2 values (thorough: all; quick: a seeded third) and a seeded slice of 3-value streams from 9 value texts x separators, "+
 		"x {no fault, every truncation point, every ioerr position, every single-byte substitution from 7 bytes}, with EVERY chunking in the model; "+
 		"each (stream, fault) is replayed under the boundary-relevant chunkings (one chunk, one byte per read, cuts at/before/after each value end and at the malformed byte, and their pairs); "+
-		"a case is non-trivial when the stream has a value and either a fault/corruption or a second value; distinct by (stream, fault); random traces count as non-trivial")
-	c.Set("checker_cmd", "tlc MC_Stream (invariants + vectors) ; tlc Trace_Stream -workers 1 (POSTCONDITION Accepted); replay through lang.EvalProgram with the scheduled reader; binary over a pipe")
+		"a case is non-trivial when the stream has a value and either a fault/corruption or a second value; distinct by (stream, fault); random traces, large-value streams, pipe / FIFO / two-input runs count as non-trivial")
+	c.Set("checker_cmd", "tlc MC_Stream (invariants + vectors) ; tlc Trace_Stream -workers 1 (POSTCONDITION Accepted); replay through lang.EvalProgram with the scheduled reader; binary over a stdin pipe, a named FIFO argument, and with two inputs")
 	c.Set("bounds", map[string]any{"MaxVals": maxVals, "Mod2": mod2, "Mod3": mod3, "Salt": salt, "random_traces": len(ins),
-		"max_random_stream_bytes": maxStream, "max_chunk": maxChunk})
+		"max_random_stream_bytes": maxStream, "max_chunk": maxChunk, "large_value_streams": nBig, "pipe_and_fifo_streams": nPipe, "two_input_runs": nTwo})
 }
 
 // c03SelfTest: the traces recorded for two fixed inputs are corrupted in three
@@ -977,26 +1341,59 @@ func c03Pipe(c *Ctx, rng *rand.Rand, n int) {
 			c.Count("inconclusive", 1)
 			continue
 		}
-		verdict, why := c03PipeOne(c, texts, outs)
+		// alternately: stdin from a pipe / a named FIFO passed as a file argument
+		fifo := ""
+		if i%2 == 1 {
+			fifo = filepath.Join(c.TempDir("c03fifo"), fmt.Sprintf("in%d.fifo", i))
+			os.Remove(fifo)
+			if err := syscall.Mkfifo(fifo, 0o600); err != nil {
+				infra("mkfifo: %v", err)
+			}
+		}
+		verdict, why := c03PipeOne(c, texts, outs, fifo)
 		switch verdict {
 		case "violation":
-			c.Violation("pipe-incremental", map[string]any{"values": texts, "program": string(c03PipeProg), "why": why})
+			name, how := "pipe-incremental", "stdin is a pipe"
+			if fifo != "" {
+				name, how = "fifo-incremental", "the input is a named FIFO passed as a file argument"
+			}
+			c.Violation(name, map[string]any{"values": texts, "program": string(c03PipeProg), "input": how, "why": why})
 		case "inconclusive":
 			c.Count("inconclusive", 1)
 		default:
-			c.Case("pipe:"+strings.Join(texts, "\n"), true)
-			c.Count("pipe_runs", 1)
+			c.Case(fmt.Sprintf("pipe:%v:", fifo != "")+strings.Join(texts, "\n"), true)
+			if fifo != "" {
+				c.Count("fifo_runs", 1)
+			} else {
+				c.Count("pipe_runs", 1)
+			}
 		}
 	}
 }
 
 var c03PipeProg = []byte("ENDFILE { print 'e', json($) }")
 
-func c03PipeOne(c *Ctx, texts []string, outs [][]byte) (verdict, why string) {
-	cmd := exec.Command(c.Bin(), string(c03PipeProg))
-	stdin, err := cmd.StdinPipe()
-	if err != nil {
-		infra("pipe: %v", err)
+// fifo == "": the values go to the binary's stdin; else to the named FIFO, which is the binary's only file argument
+func c03PipeOne(c *Ctx, texts []string, outs [][]byte, fifo string) (verdict, why string) {
+	var cmd *exec.Cmd
+	var stdin io.WriteCloser
+	var err error
+	if fifo == "" {
+		cmd = exec.Command(c.Bin(), string(c03PipeProg))
+		stdin, err = cmd.StdinPipe()
+		if err != nil {
+			infra("pipe: %v", err)
+		}
+	} else {
+		cmd = exec.Command(c.Bin(), string(c03PipeProg), fifo)
+		cmd.Stdin = bytes.NewReader(nil)
+		// O_RDWR never blocks in open and keeps the FIFO from reporting end of input until it is closed here
+		f, ferr := os.OpenFile(fifo, os.O_RDWR, 0)
+		if ferr != nil {
+			infra("open fifo: %v", ferr)
+		}
+		stdin = f
+		defer os.Remove(fifo)
 	}
 	stdout, err := cmd.StdoutPipe()
 	if err != nil {
@@ -1082,4 +1479,66 @@ func c03PipeOne(c *Ctx, texts []string, outs [][]byte) (verdict, why string) {
 		return "violation", fmt.Sprintf("final output %q, expected %q", got, all)
 	}
 	return "ok", ""
+}
+
+// c03TwoInputs: `jqawk prog good.json dir`: the second input opens but cannot
+// be read.  Every value of the first file must have been processed (its output
+// on stdout) before the error, which names the unreadable input; exit status non-zero.
+func c03TwoInputs(c *Ctx, rng *rand.Rand, n int) {
+	pool := c.Pool()
+	dir := c.TempDir("c03two")
+	bad := filepath.Join(dir, "unreadable.d")
+	os.MkdirAll(bad, 0o755)
+	for i := 0; i < n; i++ {
+		nv := 1 + rng.Intn(5)
+		texts := make([]string, nv)
+		jobs := make([]Job, nv)
+		var sb strings.Builder
+		for k := range texts {
+			texts[k] = c03RandValue(rng, 1)
+			jobs[k] = Job{Kind: "run", Prog: c03PipeProg, Files: []FileIn{{Name: "x", Data: []byte(texts[k])}}}
+			sb.WriteString(texts[k])
+			sb.WriteString(c03RandWS(rng, false))
+		}
+		var want []byte
+		outs := make([][]byte, nv)
+		okAll := true
+		pool.Map(jobs, func(k int, r Result) {
+			okAll = okAll && r.Class == "ok"
+			outs[k] = r.Stdout
+		})
+		if !okAll {
+			c.Count("inconclusive", 1)
+			continue
+		}
+		for _, o := range outs {
+			want = append(want, o...)
+		}
+		good := filepath.Join(dir, fmt.Sprintf("good%d.json", i))
+		if err := os.WriteFile(good, []byte(sb.String()), 0o644); err != nil {
+			infra("write: %v", err)
+		}
+		r := c.RunBin([]string{string(c03PipeProg), good, bad}, nil, dir, 60*time.Second)
+		rep := map[string]any{"command": fmt.Sprintf("jqawk %q good.json unreadable.d/", c03PipeProg), "good.json": sb.String(),
+			"exit": r.Exit, "stdout": string(r.Stdout), "stderr": string(r.Stderr), "expected_stdout": string(want)}
+		switch {
+		case r.TimedOut:
+			c.Count("inconclusive", 1)
+		case r.Signaled || hasCrashMarks(r.Stderr):
+			rep["why"] = "crash"
+			c.Violation("two-inputs", rep)
+		case !bytes.Equal(r.Stdout, want):
+			rep["why"] = "the values of the first input were not all processed before the unreadable second input was reported"
+			c.Violation("two-inputs", rep)
+		case r.Exit == 0:
+			rep["why"] = "an unreadable input ended the run with status 0"
+			c.Violation("two-inputs", rep)
+		case !strings.Contains(string(r.Stderr), bad):
+			rep["why"] = "the error does not name the unreadable input"
+			c.Violation("two-inputs", rep)
+		default:
+			c.Case("two:"+sb.String(), true)
+			c.Count("two_input_runs", 1)
+		}
+	}
 }
